@@ -344,6 +344,10 @@ fn sweep_authorizer(mut a: Authorizer) -> Value {
     o.insert("snapshot_after".into(), json!(ok(&a.to_raw_snapshot())));
     o.insert("iterations".into(), json!(a.iterations()));
     o.insert("fact_count".into(), json!(a.fact_count()));
+    // the same calls under the object's own limits (what is left of them after the time already spent)
+    o.insert("query_all_own_limits".into(), json!(ok(&a.query_all::<_, Fact, _>("data($x) <- f($x)"))));
+    o.insert("query_own_limits".into(), json!(ok(&a.query::<_, Fact, _>("data($x) <- f($x)"))));
+    o.insert("authorize_own_limits".into(), json!(ok(&a.authorize())));
     Value::Object(o)
 }
 
@@ -749,7 +753,8 @@ fn gen_cases(opts: &Opts, keys: &Keys) -> Vec<Value> {
                         "iterations"
                     }
                     1 => {
-                        s.execution_time = u64::MAX;
+                        // more than the time limit of the snapshot: by one, by far, by everything
+                        s.execution_time = *pick(&mut rng, &[u64::MAX, s.limits.max_time.saturating_add(1), s.limits.max_time.saturating_mul(3), s.limits.max_time]);
                         "execution_time"
                     }
                     2 => {
@@ -815,7 +820,7 @@ fn gen_cases(opts: &Opts, keys: &Keys) -> Vec<Value> {
             _ => {
                 let which = *pick(&mut rng, &["block", "authorizer", "fact", "rule", "check", "policy"]);
                 let depth = *pick(&mut rng, &[10usize, 60, 200, 3000, 40000]);
-                let core = match rng.gen_range(0..13) {
+                let core = match rng.gen_range(0..16) {
                     0 => "check if f($x) trusting ed25519/00".to_string(),
                     1 => "check if f($x) trusting secp256r1/0102".to_string(),
                     2 => format!("check if f($x) trusting ed25519/{}", "ff".repeat(32)),
@@ -827,6 +832,19 @@ fn gen_cases(opts: &Opts, keys: &Keys) -> Vec<Value> {
                     8 => "h({p}) <- f({{k}: 1}) trusting {s}".to_string(),
                     9 => "check if 9223372036854775808 > 1".to_string(),
                     12 => "check if f(99999-01-01T00:00:00Z)".to_string(),
+                    // statements that do not parse and hold characters of two, three and four bytes: error recovery
+                    // works with positions in the text
+                    13 => format!("right(\"file1\") {}; check if true", pick(&mut rng, &["\u{20ac}", "\u{e9}\u{e9}", "\u{65e5}\u{672c}", "\u{e9}\u{20ac}", "\u{10348}", "\u{e9}"])),
+                    14 => format!("f(1) {a}; g(\"{a}\") {a}{a}; check if true {a}; h({a}); check if \"{a}\".length() == 1", a = pick(&mut rng, &["\u{20ac}", "\u{e9}", "\u{10348}"])),
+                    15 => {
+                        let base = "check if right($f, \"read\"), $f.starts_with(\"/a\"); f(1) x; g(2)";
+                        let mut cs: Vec<char> = base.chars().collect();
+                        for _ in 0..rng.gen_range(1..4) {
+                            let at = rng.gen_range(0..=cs.len());
+                            cs.insert(at, *pick(&mut rng, &['\u{e9}', '\u{20ac}', '\u{10348}', '\u{a0}']));
+                        }
+                        cs.into_iter().collect()
+                    }
                     10 => pick(&mut rng, &[
                         "check if -9223372036854775808 / -1 === 0", "check if 9223372036854775807 + 1 > 0", "check if -9223372036854775808 * -1 > 0",
                         "check if -9223372036854775808 - 1 < 0", "check if 1 / 0 === 1", "check if \"a\".matches(\"(((\")", "check if \"a\".matches(\"(a*)*b\")",
